@@ -347,8 +347,36 @@ def _view(case, r):
         if f["default"][0] == "req":
             continue
         d = ".".join(path + [f["name"]])
-        out.append([d, r[1].get(d)])
+        out.append([d, r[1][d][0] if d in r[1] else "<missing>"])
     return {"ok": out}
+
+
+def _typed(case, r):
+    """the same parse result with the Python type of every value (and of the items of a list)"""
+    if r is None or r[0] != "ok":
+        return None
+    return [[d, r[1][d]] for d in sorted(r[1])]
+
+
+def _hidden_mentions(case, parsed):
+    """hidden fields whose name (either spelling) occurs anywhere in the help text outside the group descriptions:
+    usage line, `options:` section, option strings and help texts of every entry"""
+    import re
+
+    chunks = [["usage", parsed["usage"]]]
+    for title, _desc, entries in parsed["sections"]:
+        for opts, default, text in entries:
+            chunks.append([f"entry of {title}", " ".join(opts) + " " + (text or "") + " " + (default or "")])
+    out = []
+    for path, tree in drv.walk(case):
+        for f in tree["fields"]:
+            if drv.exposed(f):
+                continue
+            for n in {f["name"], f["name"].replace("_", "-")}:
+                for where, text in chunks:
+                    if re.search(r"(?<![A-Za-z0-9_])" + re.escape(n) + r"(?![A-Za-z0-9_])", text):
+                        out.append([".".join(path + [f["name"]]), where])
+    return sorted(map(list, {tuple(x) for x in out}))
 
 
 def merge(case, seeds):
@@ -369,9 +397,11 @@ def merge(case, seeds):
         stdout, stderr = text[3], text[2]
         if h[0] == "exit":
             stream = "out" if (stdout and not stderr) else ("err" if (stderr and not stdout) else None)
-            groups = _entries_with_dest(drv.parse_help(stdout or stderr)["sections"], opt2dest)
+            parsed = drv.parse_help(stdout or stderr)
+            groups = _entries_with_dest(parsed["sections"], opt2dest)
+            mentions = _hidden_mentions(case, parsed)
         else:
-            stream, groups = None, []
+            stream, groups, mentions = None, [], []
         api = None
         if o["api"] is not None:
             api = {"ok": _entries_with_dest(drv.parse_help(o["api_help"])["sections"], opt2dest)} if o["api"] == ["ok"] \
@@ -379,7 +409,8 @@ def merge(case, seeds):
         v = {"full": o["full"], "end": ["cre"] if h[0] == "cre" else h[:2], "stream": stream, "groups": groups, "accepted": accepted, "action_dests": o["action_dests"],
              "hidden": [[d, all(k == "exit" and c == 2 for _, k, c in probes), probes, reg] for d, probes, reg in o["hidden"]],
              "format_help_same": o["format_help_same"], "api": api, "after": _view(case, o["after"]), "fresh": _view(case, o["fresh"]),
-             "oracle": o["oracle"], "docs": docs,
+             "oracle": o["oracle"], "docs": docs, "hidden_elsewhere": mentions,
+             "after_typed": _typed(case, o["after"]), "fresh_typed": _typed(case, o["fresh"]),
              "fresh_format_help_sections": o["fresh_format_help_sections"]}
         key = json.dumps(v, sort_keys=True)
         if key in keys:
@@ -400,57 +431,136 @@ def _layered(case):
     return {p: drv.value_text(v) for p, v in case["over"]}
 
 
-def _check_variant(case, v):
+def _shown(eff, helptext):
+    """what an entry shows for an effective default: the value, `None` spelled out when there is a help text, nothing"""
+    if eff is not None:
+        return [eff]
+    return ["None"] if helptext else [None, "None"]
+
+
+def _variant_reasons(case, v):
+    """every way in which this observed behaviour violates the property (Python mirror of variant_spec_ok)"""
     if v["end"] == ["cre"]:
-        return None
+        return []
     if v["end"] != ["exit", 0]:
-        return f"--help ended with {v['end']} instead of exit status 0"
+        return [f"--help ended with {v['end']} instead of exit status 0"]
+    out = []
     if v["stream"] != "out":
-        return "--help did not print to stdout only"
+        out.append("--help did not print to stdout only")
     over = _layered(case)
     acc = {d: k for d, k in v["accepted"]}
     wr = list(drv.walk(case))
     if [g[0] for g in v["groups"]] != [t["cls"] + " ['" + ".".join(p) + "']" for p, t in wr]:
-        return f"groups {[g[0] for g in v['groups']]} are not one per destination in order"
+        return out + [f"groups {[g[0] for g in v['groups']]} are not one per destination in order"]
     for (path, tree), (_, entries, _d) in zip(wr, v["groups"]):
         fs = [f for f in tree["fields"] if drv.exposed(f)]
         if len(fs) != len(entries):
-            return f"group of {'.'.join(path)}: {len(entries)} entries for {len(fs)} exposed fields"
+            out.append(f"group of {'.'.join(path)}: {len(entries)} entries for {len(fs)} exposed fields")
+            continue
         for f, (edest, opts, default, text) in zip(fs, entries):
             d = ".".join(path + [f["name"]])
             if edest != d:
-                return f"entry {opts} is not the entry of field {d} (declaration order)"
+                out.append(f"entry {opts} is not the entry of field {d} (declaration order)")
+                continue
             if not opts or len(set(opts)) != len(opts) or set(opts) != set(acc.get(d, [])):
-                return f"entry of {d} shows {opts} but the parser accepts {acc.get(d)}"
+                out.append(f"entry of {d} shows {opts} but the parser accepts {acc.get(d)}")
             eff = over.get(d, drv.value_text(f["default"]))
             if eff is not None and default != eff:
-                return f"entry of {d} shows default {default!r}, the effective default is {eff!r}"
+                out.append(f"entry of {d} shows default {default!r}, the effective default is {eff!r}")
             if eff is None and default not in (None, "None"):
-                return f"entry of {d} shows default {default!r} although there is none"
+                out.append(f"entry of {d} shows default {default!r} although there is none")
             if text != f["help"]:
-                return f"entry of {d} shows help {text!r}, declared {f['help']!r}"
+                out.append(f"entry of {d} shows help {text!r}, declared {f['help']!r}")
     if not v["format_help_same"]:
-        return "format_help() after --help differs from what --help printed"
+        out.append("format_help() after --help differs from what --help printed")
     hidden_dests = [".".join(p + [f["name"]]) for p, t in wr for f in t["fields"] if not drv.exposed(f)]
     for d in hidden_dests:
         if d in v["action_dests"]:
-            return f"hidden field {d} has an action"
+            out.append(f"hidden field {d} has an action")
+    for d, where in v["hidden_elsewhere"]:
+        out.append(f"hidden field {d} is named in the help text outside the descriptions: {where}")
     for p, t in wr:
         for f in t["fields"]:
             if not drv.exposed(f) and any(f["name"] in g[2] for g in v["groups"]):
-                return f"hidden field {'.'.join(p + [f['name']])} is named in a group description: " \
-                       f"{[g[2] for g in v['groups'] if f['name'] in g[2]][0]!r}"
+                out.append(f"hidden field {'.'.join(p + [f['name']])} is named in a group description: "
+                           f"{[g[2] for g in v['groups'] if f['name'] in g[2]][0]!r}")
     if not v["full"]:
-        return None
+        return out
     for d, rejected, probes, reg in v["hidden"]:
-        if reg or d in v["action_dests"]:
-            return f"hidden field {d} has an action"
+        if reg:
+            out.append(f"hidden field {d} has an action")
         if not rejected:
-            return f"hidden field {d} is parseable: {[p for p in probes if not (p[1] == 'exit' and p[2] == 2)]}"
+            out.append(f"hidden field {d} is parseable: {[p for p in probes if not (p[1] == 'exit' and p[2] == 2)]}")
     if v["api"] != {"ok": v["groups"]}:
-        return "print_help() on a fresh parser lists other entries than --help"
+        out.append("print_help() on a fresh parser lists other entries than --help")
     if v["after"] != v["fresh"]:
-        return f"a parse after print_help() returns {v['after']}, a fresh parser returns {v['fresh']}"
+        out.append(f"a parse after print_help() returns {v['after']}, a fresh parser returns {v['fresh']}")
+    elif v["after_typed"] != v["fresh_typed"]:
+        out.append(f"a parse after print_help() returns values of other Python types: {v['after_typed']} vs fresh {v['fresh_typed']}")
+    return out
+
+
+def _stale_config_evidence(case, v):
+    """The evidence for the listed finding `print_help() sets the parser up before the constructor's config file is read`:
+    print_help() lists exactly the entries of --help EXCEPT that every field the file mentions shows the default it has
+    WITHOUT the file, and the later parse returns exactly the fresh result EXCEPT that those fields come back with that
+    default.  None = the evidence is there; otherwise what does not fit."""
+    if case["source"] != "config":
+        return "no-config-file"
+    filed = {p: drv.value_text(val) for p, val in case["over"]}
+    defn = {".".join(p + [f["name"]]): f for p, f in exposed_leaves(case)}
+    api = v["api"]
+    if not (isinstance(api, dict) and "ok" in api):
+        return "print_help-failed"
+    if [g[0] for g in api["ok"]] != [g[0] for g in v["groups"]] or [g[2] for g in api["ok"]] != [g[2] for g in v["groups"]]:
+        return "groups-differ"
+    for ga, gc in zip(api["ok"], v["groups"]):
+        if len(ga[1]) != len(gc[1]):
+            return "entry-count-differs"
+        for ea, ec in zip(ga[1], gc[1]):
+            if [ea[0], ea[1], ea[3]] != [ec[0], ec[1], ec[3]]:
+                return "entries-differ-beyond-the-default"
+            if ea[2] != ec[2]:
+                f = defn.get(ea[0])
+                if ea[0] not in filed or f is None:
+                    return "default-of-a-field-the-file-does-not-mention"
+                if ea[2] not in _shown(drv.value_text(f["default"]), f["help"]):
+                    return "default-shown-is-not-the-one-without-the-file"
+    a, fr = v["after"], v["fresh"]
+    if not (isinstance(a, dict) and "ok" in a and isinstance(fr, dict) and "ok" in fr):
+        return "later-parse-failed"
+    if [r[0] for r in a["ok"]] != [r[0] for r in fr["ok"]]:
+        return "later-parse-other-fields"
+    for (d, va), (_d, vf) in zip(a["ok"], fr["ok"]):
+        if va != vf:
+            if d not in filed:
+                return "later-parse-differs-on-a-field-the-file-does-not-mention"
+            if vf != filed[d] or va != drv.value_text(defn[d]["default"]):
+                return "later-parse-value-is-not-the-one-without-the-file"
+    ta, tf = dict(map(tuple, [[d, json.dumps(x)] for d, x in (v["after_typed"] or [])])), \
+        dict(map(tuple, [[d, json.dumps(x)] for d, x in (v["fresh_typed"] or [])]))
+    for d in ta:
+        if ta[d] != tf.get(d) and d not in filed:
+            return "later-parse-type-differs-on-a-field-the-file-does-not-mention"
+    return None
+
+
+def _autodoc_evidence(case, v, reason):
+    """The evidence for the listed finding `the docstring dataclasses generates is used as description`: the description
+    that names the hidden field IS the `__doc__` of that group's class, the class was given no docstring, and the text
+    has the generated form `Name(...)`.  None = the evidence is there."""
+    wr = list(drv.walk(case))
+    hidden = {f["name"] for _p, t in wr for f in t["fields"] if not drv.exposed(f)}
+    for (_path, tree), (_title, _entries, desc), doc in zip(wr, v["groups"], v["docs"] + [None] * len(wr)):
+        if not any(n in desc for n in hidden):
+            continue
+        if tree.get("doc", "explicit") != "auto":
+            return "class-has-its-own-docstring"
+        if doc is None or desc != " ".join(doc.split()) or not desc.startswith(tree["cls"] + "("):
+            return "not-the-generated-docstring"
+        own = {f["name"] for f in tree["fields"] if not drv.exposed(f)}
+        if not any(n in desc for n in own):
+            return "field-of-another-class"
     return None
 
 
@@ -470,21 +580,31 @@ def _seed_difference(obs):
     return "order"
 
 
-def py_spec(case, obs):
+LISTED_SHAPES = ("print_help-before-parse:config-file-defaults-ignored", "hidden-field-in-group-description")
+
+
+def _reasons(case, obs):
+    out = []
     for v in obs["variants"]:
-        r = _check_variant(case, v)
-        if r and not r.startswith(("print_help()", "a parse after")):
-            return r
-    for v in obs["variants"]:
-        r = _check_variant(case, v)
-        if r:
-            return r
+        for r in _variant_reasons(case, v):
+            if r not in out:
+                out.append(r)
     if obs["ntexts"] != 1:
         k = _seed_difference(obs)
         what = {"order": "the order of equal-length option strings", "option-sets": "the option strings the conflict resolver assigns (or whether it gives up)",
                 "other": "more than the option strings"}[k]
-        return f"--help text differs across PYTHONHASHSEED ({obs['ntexts']} texts over {case.get('nseeds', 8)} seeds): {what}"
-    return None
+        out.append(f"--help text differs across PYTHONHASHSEED ({obs['ntexts']} texts over {case.get('nseeds', 8)} seeds): {what}")
+    return out
+
+
+def py_spec(case, obs):
+    """the first violation; one whose signature has the precise shape of a listed finding is reported only when the case
+    shows nothing else (so that a listed finding never hides another defect in the same case)"""
+    rs = _reasons(case, obs)
+    for r in rs:
+        if signature(case, obs, r) not in LISTED_SHAPES:
+            return r
+    return rs[0] if rs else None
 
 
 def signature(case, obs, reason):
@@ -492,9 +612,20 @@ def signature(case, obs, reason):
         return "hashseed:" + {"order": "equal-length-spelling-order", "option-sets": "conflict-resolution-differs",
                               "other": "other"}[_seed_difference(obs)]
     if reason.startswith(("print_help()", "a parse after")):
-        return "print_help-before-parse:" + ("config-file-defaults-ignored" if case["source"] == "config" else case["source"])
+        misfit = None
+        for v in obs["variants"]:
+            if v["full"] and v["end"] == ["exit", 0] and (v["api"] != {"ok": v["groups"]} or v["after"] != v["fresh"]
+                                                          or v["after_typed"] != v["fresh_typed"]):
+                misfit = misfit or _stale_config_evidence(case, v)
+        if misfit is None:
+            return "print_help-before-parse:config-file-defaults-ignored"
+        return f"print_help-before-parse:{case['source']}:{misfit}"
     if reason.startswith("hidden field") and "group description" in reason:
-        return "hidden-field-in-group-description"
+        misfit = None
+        for v in obs["variants"]:
+            if v["end"] == ["exit", 0]:
+                misfit = misfit or _autodoc_evidence(case, v, reason)
+        return "hidden-field-in-group-description" + ("" if misfit is None else ":" + misfit)
     if reason.startswith("coq-spec"):
         return "coq-spec-only"
     kinds = [("--help ended with", "help-does-not-exit-0"), ("--help did not print", "help-not-on-stdout-only"),
@@ -502,6 +633,8 @@ def signature(case, obs, reason):
              ("is not the entry of", "entry-order"), ("but the parser accepts", "option-strings-differ-from-accepted"),
              ("shows default", "default-shown-is-not-effective-default"), ("shows help", "help-text-differs"),
              ("has an action", "hidden-field-has-action"), ("is parseable", "hidden-field-parseable"),
+             ("outside the descriptions", "hidden-field-named-outside-descriptions"),
+             ("other Python types", "later-parse-value-types-differ"),
              ("format_help()", "format_help-differs-from-help")]
     for pat, k in kinds:
         if pat in reason:
@@ -652,7 +785,8 @@ def to_coq(case, obs):
         hid = n.t(clist([cpair(n.s(d), cbool(rej)) for d, rej, _, _ in v["hidden"]]))
         api = n.t(_res(v["api"], lambda g: _groups(g, n)))
         vs.append(f"(mkvar {cbool(v['full'])} {n.t(clist([n.ss(r) for r in v['oracle']]))} {_err(v['end'])} {stream} {_groups(v['groups'], n)} {acc} "
-                  f"{n.ss(v['action_dests'])} {hid} {cbool(bool(v['format_help_same']))} {api} "
+                  f"{n.ss(v['action_dests'])} {hid} {cbool(not v['hidden_elsewhere'])} {cbool(bool(v['format_help_same']))} "
+                  f"{cbool(v['after_typed'] == v['fresh_typed'])} {api} "
                   f"{n.t(_res(v['after'], view))} {n.t(_res(v['fresh'], view))})")
     return n.wrap(f"mkcase (mkcfg {DV[case['dv']]} {GM[case['gm']]} {NM[case['nm']]}) {CR[case['mode']]} {_forest(case, n, _docs_of(case, obs))} {pre} {cfgf} "
                   f"{req} {clist(vs)} {cnat(obs['ntexts'])}")
